@@ -698,6 +698,19 @@ Proof.
   rewrite bytes_to_words_spec by exact H. f_equal. lia.
 Qed.
 
+(* filler_value: a 64-bit word whose every bit is the given bit *)
+Theorem filler_value_bits b k : N.testbit (filler_value b) k = b && (k <? 64).
+Proof.
+  unfold filler_value. destruct b; cbn [andb].
+  - destruct (N.ltb_spec k 64) as [Hk|Hk].
+    + apply N.ones_spec_low. exact Hk.
+    + apply N.ones_spec_high. exact Hk.
+  - apply N.bits_0.
+Qed.
+
+Theorem filler_value_lt b : filler_value b < 2 ^ 64.
+Proof. unfold filler_value. destruct b; [rewrite N.ones_equiv|]; lia. Qed.
+
 Theorem round_up_to_word_bits_spec m n :
   n + 63 < 2 ^ 64 ->
   exists r, f_round_up_to_word_bits m n = Ok r /\ n <= r < n + 64 /\ r mod 64 = 0.
